@@ -207,17 +207,20 @@ func NewPerturb(seed int64, mode int) *Perturb {
 	for i := range p.bias {
 		p.bias[i] = 40
 	}
+	// per-token points are passed thousands of times per input: keep them rare
+	p.bias[bcl.VerifPtLexBeforeEmit] = 3
+	p.bias[bcl.VerifPtParseAfterToken] = 3
 	switch mode % 5 {
 	case 0: // uniform light
 	case 1: // slow parser: the lexer runs ahead
-		p.bias[bcl.VerifPtParseAfterToken] = 200
+		p.bias[bcl.VerifPtParseAfterToken] = 25
 		p.bias[bcl.VerifPtParseDiagnostic] = 250
 	case 2: // slow reader
 		p.bias[bcl.VerifPtReaderAfterRead] = 220
 		p.bias[bcl.VerifPtReaderBeforeSend] = 220
 	case 3: // slow lexer
 		p.bias[bcl.VerifPtLexBeforeRecv] = 200
-		p.bias[bcl.VerifPtLexBeforeEmit] = 120
+		p.bias[bcl.VerifPtLexBeforeEmit] = 20
 		p.bias[bcl.VerifPtLexAfterLineUpd] = 250
 	case 4: // slow shutdown paths
 		p.bias[bcl.VerifPtParserReturned] = 250
@@ -249,12 +252,16 @@ func (p *Perturb) Hook(id int) {
 	if uint8(x) >= b {
 		return
 	}
-	switch (x >> 8) % 4 {
-	case 0, 1:
+	switch (x >> 8) % 8 {
+	case 0, 1, 2, 3, 4:
 		runtime.Gosched()
-	case 2:
+	case 5:
+		for k := 0; k < int(1+(x>>16)%4); k++ {
+			runtime.Gosched()
+		}
+	case 6:
 		time.Sleep(time.Duration(1+(x>>16)%20) * time.Microsecond)
-	case 3:
+	case 7:
 		time.Sleep(time.Duration(20+(x>>16)%60) * time.Microsecond)
 	}
 }
